@@ -1,13 +1,15 @@
 SPECIFICATION Spec
 CONSTANTS
   Sigma <- Sigma18
-  MaxLen = 5
+  MaxLen = 4
   Mids <- MidsC
   Paths <- PathsC
   Queries <- QueriesC
   Frags <- FragsC
   Pfx <- PfxC
   Bases <- BasesC
+  LongLen = 5
+  SigmaLong <- SigmaLongC
   SegLen = 3
 INVARIANTS Recompose CleanParts PlainDid Emit
 CHECK_DEADLOCK FALSE
